@@ -65,6 +65,10 @@ type hist struct {
 	nodes   map[string]map[string]struct{}
 	commits []commitRec
 
+	// accounts (indexes into cm.Addrs) whose committed data trie was changed by a failed-and-reverted block attempt
+	// since the last commit / rollback (evidence: does the next block leave them alone?)
+	attemptTouched map[int]bool
+
 	dead bool // a violation / fatal condition ended this history
 }
 
@@ -352,7 +356,37 @@ func unhex(s string) []byte {
 	return b
 }
 
+// failedAttempt processes part of a block and gives it up as the block processor does when ProcessBlock fails
+// (RevertAccountState = RevertToSnapshot(0) on the accounts DB). The chain, the required-live set and every pruning
+// list must be as if the attempt had never happened.
+func (h *hist) failedAttempt() {
+	restore := h.w.Chain[h.c.Rng.Intn(len(h.w.Chain))]
+	at, err := h.w.FailedAttempt(h.c.Rng, restore)
+	if err != nil {
+		h.op("failed block attempt: revert FAILED")
+		h.opFailed("failed-block-revert", err)
+		return
+	}
+	h.ev("failed_block_attempt_reverted")
+	if at.TouchedLive > 0 {
+		h.ev("failed_attempt_changed_a_committed_data_trie")
+		for _, ai := range at.LiveAddrs {
+			h.attemptTouched[ai] = true
+		}
+	}
+	if h.blocked() {
+		h.ev("failed_attempt_while_blocked")
+	}
+	h.op(fmt.Sprintf("block attempt on %s FAILED, reverted with RevertToSnapshot(0) [%s]", cm.Short(h.w.Head().Root), at.Desc))
+}
+
 func (h *hist) commit() {
+	if !h.dead && h.c.Rng.Chance(1, 5) {
+		h.failedAttempt() // the block that is committed next replaces a block that failed
+		if h.dead {
+			return
+		}
+	}
 	if h.c.Rng.Chance(1, 6) {
 		h.commitEmpty()
 		return
@@ -374,6 +408,10 @@ func (h *hist) commitEmpty() {
 	h.ev("empty_block")
 	h.op(fmt.Sprintf("commit h=%d root=%s on %s [%s]", b.Height, cm.Short(b.Root), cm.Short(parent.Root), b.Desc))
 	h.recordNodes(b, string(parent.Root))
+	if len(h.attemptTouched) > 0 {
+		h.ev("block_after_failed_attempt_never_loads_an_account_the_attempt_changed")
+		h.attemptTouched = map[int]bool{}
+	}
 }
 
 // reprocess rolls the head back and processes the identical block again (same operations, same root): what a node
@@ -429,6 +467,19 @@ func (h *hist) commitBlock(orig *cm.Block) {
 	}
 	h.op(fmt.Sprintf("commit h=%d root=%s on %s [%s]", b.Height, cm.Short(b.Root), cm.Short(parent.Root), b.Desc))
 	h.recordNodes(b, string(parent.Root))
+	if len(h.attemptTouched) > 0 {
+		loaded := map[int]bool{}
+		for _, p := range b.Script {
+			loaded[p.Addr] = true
+		}
+		for ai := range h.attemptTouched {
+			if !loaded[ai] {
+				h.ev("block_after_failed_attempt_never_loads_an_account_the_attempt_changed")
+				break
+			}
+		}
+		h.attemptTouched = map[int]bool{}
+	}
 }
 
 // recordNodes keeps the node set of a fresh commit (diagnostics; the oracle itself runs in checkLive)
@@ -516,6 +567,7 @@ func (h *hist) rollback() {
 		h.ev("rollback_unblocked")
 	}
 	h.op(fmt.Sprintf("rollback head=%s to %s blocked=%v", cm.Short(head.Root), cm.Short(prev.Root), wasBlocked))
+	h.attemptTouched = map[int]bool{}
 }
 
 // runDirectedLeak replays, through the same oracles, the minimal witness of the garbage shape found by this monitor:
@@ -530,7 +582,7 @@ func runDirectedLeak(r *vk.Run, c *vk.Case, variant int) {
 	defer env.Close()
 	h := &hist{r: r, c: c, env: env, w: cm.NewWorld(env), profile: profNeverBlocked, events: map[string]bool{},
 		bufCap: 1000, stale: map[string]bool{}, requested: map[string]bool{},
-		reqWhileBlocked: map[string]bool{}, lastChecked: map[string]int64{}, nodes: map[string]map[string]struct{}{}}
+		reqWhileBlocked: map[string]bool{}, lastChecked: map[string]int64{}, nodes: map[string]map[string]struct{}{}, attemptTouched: map[int]bool{}}
 	env.Rec.OnCancel = h.onCancel
 	env.Rec.OnPrune = h.onPrune
 	scripts := [][]cm.ScriptOp{
@@ -588,7 +640,7 @@ func runHistory(r *vk.Run, c *vk.Case) {
 	defer env.Close()
 	h := &hist{r: r, c: c, env: env, w: cm.NewWorld(env), profile: profile, events: map[string]bool{},
 		bufCap: int(cfg.PruningBufferLen), stale: map[string]bool{}, requested: map[string]bool{},
-		reqWhileBlocked: map[string]bool{}, lastChecked: map[string]int64{}, nodes: map[string]map[string]struct{}{}}
+		reqWhileBlocked: map[string]bool{}, lastChecked: map[string]int64{}, nodes: map[string]map[string]struct{}{}, attemptTouched: map[int]bool{}}
 	env.Rec.OnCancel = h.onCancel
 	env.Rec.OnPrune = h.onPrune
 
@@ -619,7 +671,9 @@ func runHistory(r *vk.Run, c *vk.Case) {
 				h.pendingLeft--
 			}
 		}
-		switch x := rng.Intn(10); {
+		switch x := rng.Intn(11); {
+		case x == 10:
+			h.failedAttempt()
 		case x < 3:
 			h.commit()
 		case x < 5:
@@ -739,7 +793,7 @@ func runHistory(r *vk.Run, c *vk.Case) {
 func main() {
 	_ = logger.SetLogLevel("*:NONE")
 	r := vk.Start("C09")
-	r.Rule("each case is one chain history of 15-60 ops over 6 accounts + a counter account (unique block roots): commit (1 in 6 an EMPTY block whose root equals its parent's; else balance/code/storage write+delete, account removal/re-creation, in-block slot flip-flops; small key/value sets so node hashes recur across blocks), finalize the next block through the real updateStateStorage (pruning queue 0-3), roll back the head (RevertStateToBlock + PruneStateOnRollback; 1 in 3 rollbacks re-processes the identical block afterwards: same operations, same root), Enter/ExitPruningBufferingMode, real SnapshotState/SetStateCheckpoint of the new final root held at the first traversal read for 1-4 ops. Profiles by case index mod 4: never blocked / blocked but never rolled back while blocked / blocked with rollbacks (explicit) / blocked with rollbacks + real snapshots. A history is non-trivial when at least one prune was executed; distinct = distinct (queue, waiting-list cache, buffer, profile, set of pruning events) signatures.")
+	r.Rule("each case is one chain history of 15-60 ops over 6 accounts + a counter account (unique block roots): commit (1 in 6 an EMPTY block whose root equals its parent's; else balance/code/storage write+delete, account removal/re-creation, in-block slot flip-flops; small key/value sets so node hashes recur across blocks), finalize the next block through the real updateStateStorage (pruning queue 0-3), roll back the head (RevertStateToBlock + PruneStateOnRollback; 1 in 3 rollbacks re-processes the identical block afterwards: same operations, same root), a FAILED BLOCK ATTEMPT (1 in 11 ops, and before 1 in 5 commits: the operations of a would-be block - storage writes through SaveKeyValue+SaveAccount, removals, code, flip-flops - are applied and the block is then given up as the block processor does when ProcessBlock fails, RevertAccountState = RevertToSnapshot(0); the history carries on with any other operation, usually a different block that may or may not load the accounts the attempt changed), Enter/ExitPruningBufferingMode, real SnapshotState/SetStateCheckpoint of the new final root held at the first traversal read for 1-4 ops. Profiles by case index mod 4: never blocked / blocked but never rolled back while blocked / blocked with rollbacks (explicit) / blocked with rollbacks + real snapshots. A history is non-trivial when at least one prune was executed; distinct = distinct (queue, waiting-list cache, buffer, profile, set of pruning events) signatures.")
 	r.Assume(
 		"the harness's finalize/rollback ordering mirrors CommitBlock->updateState and baseSync.rollBackOneBlock (RevertStateToBlock then PruneStateOnRollback)",
 		"roots of state-changing blocks are unique (per-block nonce bump: a root never comes back after a different one); empty blocks share the root of their parent",
@@ -747,6 +801,7 @@ func main() {
 		"the model of the pruning buffer (used only to pick the violation key and to decide where the garbage oracle applies) follows storagePruningManager: CancelPrune is buffered when blocked or the buffer is non-empty, PruneTrie(Old) is buffered when blocked, an unblocked PruneTrie drains",
 		"roots whose prune was requested while pruning is (certainly) blocked stay required until it is unblocked; other requested roots are not required (sound under buffering)",
 		"a failed RemoveAccount is followed by RevertToSnapshot(pre-op journal length), as scProcessor does",
+		"a failed block attempt is reverted with baseProcessor.RevertAccountState (RevertToSnapshot(0) on every accounts DB); afterwards the accounts root must be the head's root and the attempt must leave no trace in the chain, in the required-live set or in any pruning list",
 		"a block is re-processed only when identical re-execution is well-defined: blocks containing a failed-and-reverted RemoveAccount are not (RemoveAccount of an account with uncommitted data-trie changes fails while the new data-trie root is absent from the DB, and succeeds once a rollback under blocked pruning has left the nodes of the first processing behind)",
 	)
 	r.MinShapes(20)
